@@ -66,6 +66,9 @@ int tsgRead(void *grid, const char* filename){
     }catch(std::runtime_error &e){
         cerr << e.what() << endl;
         return 0;
+    }catch(std::invalid_argument &e){ // the block of a custom tabulated rule reports a wrong format with this type
+        cerr << e.what() << endl;
+        return 0;
     }
 }
 
